@@ -16,7 +16,7 @@ PROFILE = {
 
 
 def build_cases(tier, seed):
-    n, steps = (80, 240) if tier == "quick" else (800, 500)
+    n, steps = (80, 240) if tier == "quick" else (1600, 500)
     cases = []
     for i in range(n):
         s = seed * 100000 + 5000 + i
